@@ -78,6 +78,10 @@ func Gen(profile string, seed uint64) (*Config, Plan) {
 	cfg.ErrDelayMaxMs = pick(g, 1, cfg.HeartbeatMs, cfg.ElectionMs, 2*cfg.ElectionMs)
 
 	cfg.StickyPm = pick(g, 0, 500, 800, 950)
+	if g.Chance(0.35) {
+		cfg.SpawnDelayPm = pick(g, 50, 300, 1000)
+		cfg.SpawnDelayUs = pick(g, 50, 500, 3000)
+	}
 	cfg.DiskYield = g.Chance(0.5)
 	if g.Chance(0.4) {
 		cfg.SyncLatencyUs = pick(g, 200, 2000, 10000)
@@ -156,6 +160,8 @@ func Gen(profile string, seed uint64) (*Config, Plan) {
 		kinds["slowlink"] = g.Chance(0.7)
 		nFaults = pick(g, 4, 8, 12)
 	case ProfLease:
+		// (a late goroutine start is a message delay on top of the bound D: not in this profile)
+		cfg.SpawnDelayPm, cfg.SpawnDelayUs = 0, 0
 		cfg.Voters = weighted(g, 3, 50, 5, 40, 4, 10)
 		if g.Chance(0.5) {
 			cfg.NonVoters = pick(g, 1, 2)
